@@ -14,8 +14,9 @@ ASSUMPTIONS = [
     'body-on-suspended-PU monitor assumes it does not happen)',
     'the model has the staged/pending split of every queue and the pool-wide low-priority queue (converted by the last worker only, '
     'popped by any running worker, counted in the last worker\'s get_queue_length); the high-priority queue of a worker is merged with '
-    'its normal queue; thread-count limits of add_new (max_thread_count) and the idle-loop threshold for stealing staged tasks are '
-    'not modelled (batch size and victim are oracle choices); accepted suspend/resume calls come from OS threads or tasks of other '
+    'its normal queue in the base model (exact only for num_high_priority_queues = workers; separate queues: layer Model/SuspendResumeHP.v, '
+    'finding C19:high_priority_task_stranded_on_suspended_pu); thread-count limits of add_new (max_thread_count), min_tasks_to_steal_staged and '
+    'the idle-loop threshold for stealing staged tasks are oracle refusals simulated by the contention bit (C19_limits_simulated); accepted suspend/resume calls come from OS threads or tasks of other '
     'pools (tasks of the pool itself only for the refused calls)',
     'threads_[i].joinable() is true for every worker (no add/remove_processing_unit in the histories)',
 ]
@@ -62,6 +63,58 @@ def gen_history(rng, nw, el, st):
 def model_run(drv, lines):
     rc, out = sh([drv], input='\n'.join(lines) + '\n', timeout=600)
     return [x for x in out.split('\n') if x.startswith('OUT ')]
+
+
+def run_hp(ctx, r, drv):
+    """round w11c — separate high-priority queues (Model/SuspendResumeHP.v, harness/c19_hp.cpp, own process per case): PU 0 of a
+    2-worker elastic stealing pool is suspended, then n tasks are submitted with hint 1.  Monitor (no model): while worker 1 is
+    running and stealing is enabled every task must run without a resume.  DIFF: returned / done_before_resume / states against the
+    extracted hp_tstep (kind HPQ).  nhp = 1 with priority high is the finding C19:high_priority_task_stranded_on_suspended_pu."""
+    h = ctx.build_harness('c19_hp', 'c19_hp.cpp')
+    n = 12
+    cases = [('h1', 2, 1, 1), ('h2', 2, 2, 1), ('n1', 2, 1, 0)]
+    if ctx.tier != 'quick':
+        cases += [('h3', 3, 1, 1), ('h4', 3, 2, 1), ('h5', 3, 3, 1), ('n3', 3, 2, 0)]
+    want = {}
+    for x in model_run(drv, ['IN HPQ %s nw=%d nhp=%d high=%d n=%d' % (cid, nw, nhp, hi, n) for cid, nw, nhp, hi in cases]):
+        p = x.split(' ', 3)
+        if p[1] == 'HPQ':
+            want[p[2]] = p[3]
+    for cid, nw, nhp, hi in cases:
+        cmd = [h, cid, str(nw), str(nhp), str(hi), str(n)]
+        rc, out = sh(cmd, timeout=120)
+        rep = {'harness': 'c19_hp', 'cmd': cmd[1:]}
+        lines = [x for x in out.split('\n') if x.startswith('OUT HPQ ')]
+        r.evaluations += 1
+        r.count('HPQ:nw=%d nhp=%d %s' % (nw, nhp, 'high' if hi else 'normal'))
+        if not lines:
+            r.hits.append(Hit('monitor', 'C19:hp:crash', 'high-priority queue scenario: the process produced no result (rc=%d): %s'
+                              % (rc, ' | '.join(out.split('\n')[-4:])[:400]), rep))
+            continue
+        o = lines[0]
+        kvs = dict(x.split('=', 1) for x in o.split(' ')[3:] if '=' in x)
+        got = o.split(' ', 3)[3].split(' all=')[0]
+        r.nontrivial('hpq %s' % cid)
+        if kvs.get('returned') != '1':
+            r.hits.append(Hit('monitor', 'C19:hp:suspend_did_not_return', 'suspend_processing_unit_direct(0) did not return within 20 s (%s)' % o, rep))
+        elif kvs.get('done_before_resume') != kvs.get('of'):
+            r.hits.append(Hit('monitor', 'C19:high_priority_task_stranded_on_suspended_pu' if hi and nhp < nw else 'C19:stranded_despite_stealing',
+                              '%s of %s %s-priority tasks submitted with hint 1 after suspend_processing_unit(0) had returned did not run although worker 1 is '
+                              'running and stealing is enabled (nw=%d, %d high-priority queue(s)): states %s, get_queue_length(0)=%s, get_queue_length(1)=%s; '
+                              '%s had run 5 s after PU 0 was resumed'
+                              % (int(kvs['of']) - int(kvs['done_before_resume']), kvs['of'], 'high' if hi else 'normal', nw, nhp, kvs.get('states'),
+                                 kvs.get('queue_length_w0'), kvs.get('queue_length_w1'), kvs.get('done_after_resume')), rep))
+        if kvs.get('returned') == '1' and kvs.get('done_after_resume') != kvs.get('of'):
+            r.hits.append(Hit('monitor', 'C19:hp:lost_after_resume', 'tasks did not run even after the resume: %s' % o, rep))
+        if cid not in want:
+            r.hits.append(Hit('tie', 'C19:model_driver', 'no model prediction for the HPQ case %s' % cid, rep))
+        else:
+            r.traces += 1
+            if want[cid] != got:
+                r.hits.append(Hit('corr', 'C19:hp:correspondence', 'high-priority queue scenario %s (nw=%d nhp=%d high=%d): implementation [%s] model [%s]'
+                                  % (cid, nw, nhp, hi, got, want[cid]), dict(rep, impl=got, model=want[cid])))
+        if len(r.samples) < 8:
+            r.sample({'hpq': cid, 'nw': nw, 'nhp': nhp, 'high': hi, 'observed': got})
 
 
 def run(ctx):
@@ -367,4 +420,5 @@ def run(ctx):
                 if len(r.samples) < 6 and f[1] == 'c0':
                     r.sample({'config': cfgs + ' ' + pol, 'conc': c, 'observed': o})
     r.extra['configurations'] = ['nw=%d el=%d st=%d %s' % tuple(c) for c in cfg_list]
+    run_hp(ctx, r, drv)
     return r
